@@ -162,15 +162,20 @@ def render(case):
 
 
 def run_hijack(case, text, what, adds):
-    """adding an item to a section whose name differs only by blanks must not replace the real section: rejected, or the output is unchanged"""
+    """adding an item to a section whose name differs only by blanks must not replace the real section: rejected, or the same as adding it to the real section"""
     from atsim.potentials.config import ConfigParser, Configuration
     from atsim.potentials.config._common import ConfigurationException
     viol = []
-    want = R.write_tabulation(R.config_read(text))
+    from atsim.potentials.config import ConfigParserOverrideTuple as T_
+    # blanks around a section name are not part of it: the addition goes to the real section (or is refused) - it never replaces that section
+    try:
+        want = R.write_tabulation(Configuration().read_from_parser(ConfigParser(io.StringIO(text), additional=[T_(a.section.strip(), a.key, a.value) for a in adds])))
+    except ConfigurationException:
+        want = None            # the addition to the real section is itself refused (e.g. an embedding function for an unknown element)
     try:
         cp = ConfigParser(io.StringIO(text), additional=adds)
         got = R.write_tabulation(Configuration().read_from_parser(cp))
-        if got != want:
+        if want is None or got != want:
             viol.append(dict(sig='section-hijacked:%s' % case['op'], msg='%s: adding %r replaced the real section: the table changed (%d -> %d bytes)' % (what, case['additional'], len(want), len(got)), detail={}))
     except ConfigurationException:
         pass
